@@ -14,7 +14,7 @@
    in a tick, and whatever they raise, its state is the same -- this is the "one or several consumers" clause. *)
 From Coq Require Import ZArith NArith Bool String List Lia.
 Require Import PV.Base.Val PV.Gen.Window PV.Model.Window.
-Require Import PV.Proofs.Window PV.Proofs.WindowSpec PV.Proofs.WindowCount PV.Proofs.WindowState PV.Proofs.WindowTick PV.Proofs.WindowAnywhere.
+Require Import PV.Proofs.Window PV.Proofs.WindowSpec PV.Proofs.WindowCount PV.Proofs.WindowState PV.Proofs.WindowTick PV.Proofs.WindowAnywhere PV.Proofs.WindowOver.
 Import ListNotations.
 Open Scope Z_scope.
 Open Scope list_scope.
@@ -27,6 +27,9 @@ Proof. exact win_step_order_ok. Qed.
 Theorem C11_other_step_orders :
   tr_step_order = [0; 1; 2; 3; 4] /\ st_step_order = [0; 1; 2; 3; 4; 5] /\ st_state_index_from_end = 1.
 Proof. exact other_step_orders_ok. Qed.
+(* TransformedWithDStream._step (union): guard, step the parent, step the other parent, set the guard time, apply *)
+Theorem C11_union_step_order : tw_step_order = [0; 1; 2; 3; 4].
+Proof. exact (eq_refl : tw_step_order = [0; 1; 2; 3; 4]). Qed.
 
 (* a stream whose guard time has reached t is not changed by anything that is stepped at time t *)
 Theorem C11_guard_freezes : forall fuel g i t st j ns,
@@ -220,7 +223,7 @@ Theorem C11_none_is_a_state :
   state_after u_last [[(0, VInt 3); (0, VNone)]; []] 2 = [(0, VNone)] /\
   state_after u_reset [[(0, VInt 3)]; []; [(0, VInt 1)]] 2 = [(0, VNone)] /\
   state_after u_reset [[(0, VInt 3)]; []; [(0, VInt 1)]] 3 = [(0, VInt 1)] /\
-  state_after u_minopt [[(0, VNone); (1, VInt 2)]; [(1, VNone); (1, VInt (-1))]] 2 = [(1, VInt (-1)); (0, VNone)].
+  state_after u_minopt [[(0, VNone); (1, VInt 2)]; [(1, VNone); (1, VInt (-1))]] 2 = [(0, VNone); (1, VInt (-1))].
 Proof. exact none_is_a_state. Qed.
 
 (* what k consumers of the state stream observe: no tick raises; one capture per consumer and tick, all equal to
@@ -278,6 +281,41 @@ Theorem C11_state_beside_window : forall kq w s u k ts, increasing 0 ts ->
   rdd_of (final (prog_both (enc_queue kq) w s u k) ts) (2 + k) = state_rdd u kq (length ts) /\
   snd (run_graph (prog_both (enc_queue kq) w s u k) ts) = map (fun _ => None) ts.
 Proof. exact state_beside_window. Qed.
+
+(* ================= windows over derived streams =================
+   The parent of the window need not be a source: [rdd_trace g p ts st] lists the RDDs stream p holds after each tick
+   of the run (what the parent emitted, as it emitted them). *)
+
+(* in ANY well-formed program, a windowed stream i on ANY parent stream p < i (a transformed, stateful, union ...
+   stream, anything registered around them): after every run in which no tick raised, the buffer holds exactly the
+   parent's most recent w RDDs in order, and at an emitting interval the window's RDD is Context.union of them *)
+Theorem C11_window_over_any_parent : forall g p i w s,
+  well_formed g -> (p < i < length g)%nat -> nth_error g i = Some (Window w s p) -> 0 < s ->
+  forall ts, increasing 0 ts -> snd (run_graph g ts) = map (fun _ => None) ts ->
+  exists nsi, nth_error (gnodes (final g ts)) i = Some nsi /\
+    nbuf nsi = lastn (Z.to_nat w) (rdd_trace g p ts (init_state g)) /\
+    nctr nsi = Z.of_nat (length ts) mod s /\
+    (ts <> [] -> Z.of_nat (length ts) mod s = 0 -> union (nbuf nsi) = Ok (nrdd nsi)).
+Proof. exact window_over_any. Qed.
+(* Context.union is the in-order concatenation of the collected members *)
+Theorem C11_union_collect : forall l r, union l = Ok r -> collect r = concat (map collect l).
+Proof. exact union_ok_collect. Qed.
+
+(* window(w, s) / countByWindow(w, s) over q.map(f), q.filter(f), q.flatMap(f), q.updateStateByKey(u), q.union(q2),
+   q.transform(f) (variants 0, 1, 2, 4, 5, 6 of [derived_parent]) with k consumers and a consumer on the parent: these
+   programs are well-formed and quiet, no tick raises, and the window holds the parent's most recent w batches as the
+   parent emitted them (for a window of state snapshots: the state RDDs of the last w intervals) *)
+Theorem C11_window_over_derived : forall pv u qq pre count w s k ts,
+  derived_parent pv u qq = Some pre -> In pv [0; 1; 2; 4; 5; 6] -> (pv = 4 -> Forall keyed_batch qq) ->
+  0 < s -> increasing 0 ts ->
+  let g := prog_window_over count pre w s k in
+  snd (run_graph g ts) = map (fun _ => None) ts /\
+  exists nsi, nth_error (gnodes (final g ts)) (length pre) = Some nsi /\
+    nbuf nsi = lastn (Z.to_nat w) (rdd_trace g (length pre - 1) ts (init_state g)) /\
+    nctr nsi = Z.of_nat (length ts) mod s /\
+    (ts <> [] -> Z.of_nat (length ts) mod s = 0 ->
+     union (nbuf nsi) = Ok (nrdd nsi) /\ collect (nrdd nsi) = concat (map collect (nbuf nsi))).
+Proof. exact window_over_derived. Qed.
 
 (* ================= non-vacuity / sanity ================= *)
 Example increasing_example : increasing 0 [1; 2; 4; 7].
@@ -345,3 +383,15 @@ Example absent_key_is_updated :
   state_after u_history kq 3 = [(0, VList [VList [VInt 4]; VList []; VList []])] /\
   state_after u_decay kq 3 = [(0, VInt 1)].
 Proof. vm_compute. repeat split. Qed.
+(* a window of state snapshots: window(2, 1) over updateStateByKey(sum); consumer 0 sees the window, consumer 1 the
+   parent; and a window over a union of two queues *)
+Example window_of_state_snapshots :
+  let q := enc_queue [[(0, VInt 1)]; [(1, VInt 2); (0, VInt 3)]] in
+  match derived_parent 4 u_sum q with
+  | Some pre => map (fun e => snd e) (glog (final (prog_window_over false pre 2 1 1) [1; 2]))
+  | None => []
+  end
+  = [Some [VTup [VInt 0; VInt 1]]; Some [VTup [VInt 0; VInt 1]];
+     Some [VTup [VInt 0; VInt 1]; VTup [VInt 0; VInt 4]; VTup [VInt 1; VInt 2]];
+     Some [VTup [VInt 0; VInt 4]; VTup [VInt 1; VInt 2]]].
+Proof. vm_compute. reflexivity. Qed.
